@@ -629,3 +629,27 @@ def _subst_flags(test, func):
       return d if d is not None else node
   import copy
   return T().visit(copy.deepcopy(test))
+
+
+def expr_guard(node, pred, negative=False, func=None):
+  """Is `node` (an expression) evaluated only when pred holds, by virtue of an enclosing conditional expression /
+  short-circuit operator inside its own statement?  True / False (no such guard)."""
+  cur = node
+  for anc in astu.ancestors(node):
+    if isinstance(anc, ast.stmt):
+      break
+    if isinstance(anc, ast.IfExp):
+      fn = refutes if negative else establishes
+      if cur is anc.body and fn(anc.test, True, pred, func):
+        return True
+      if cur is anc.orelse and fn(anc.test, False, pred, func):
+        return True
+    if isinstance(anc, ast.BoolOp) and cur in anc.values:
+      before = anc.values[:anc.values.index(cur)]
+      fn = refutes if negative else establishes
+      if isinstance(anc.op, ast.And) and any(fn(b, True, pred, func) for b in before):
+        return True
+      if isinstance(anc.op, ast.Or) and any(fn(b, False, pred, func) for b in before):
+        return True
+    cur = anc
+  return False
